@@ -13,7 +13,7 @@ OUT=seeded/MATRIX.tsv
 TMP=$(mktemp)
 SEEDS=("$@")
 if [ ${#SEEDS[@]} -eq 0 ]; then
-  SEEDS=($(ls seeded | grep -E '^C[0-9]+b?-[0-9]+$' | sort))
+  SEEDS=($(ls seeded | grep -E '^C[0-9]+[bc]?-[0-9]+$' | sort))
 fi
 printf "seed\tcheck\texit\tviolation_groups\tfirst_violation\n" > "$TMP"
 trap 'git -C /repo checkout -- . ; ./vcheck build >/dev/null 2>&1; git -C /verif checkout -- evidence 2>/dev/null' EXIT
